@@ -287,6 +287,21 @@ func randRule(r *rand.Rand, o ProgOpts, p ProgramV, head PredSig, aggPreds map[s
 				k = "eq"
 			}
 			extras = append(extras, LitV{K: k, L: &a, R: &b})
+		case x == 8 && r.Intn(2) == 0:
+			// an alias: a fresh variable that only a variable = variable equality (either orientation) defines
+			ss := []string{"num", "name", "str", "list"}
+			sort := ss[r.Intn(len(ss))]
+			if len(c.vars[sort]) == 0 {
+				continue
+			}
+			v := VarT(c.vars[sort][r.Intn(len(c.vars[sort]))])
+			z := VarT(c.fresh(sort))
+			if r.Intn(2) == 0 {
+				post = append(post, LitV{K: "eq", L: &z, R: &v})
+			} else {
+				post = append(post, LitV{K: "eq", L: &v, R: &z})
+			}
+			c.bind(sort, z.Name)
 		case x < 9 && o.Functions && len(c.vars["num"]) > 0:
 			x1 := c.vars["num"][r.Intn(len(c.vars["num"]))]
 			z := c.fresh("num")
@@ -485,6 +500,19 @@ func randDoRule(r *rand.Rand, o ProgOpts, p ProgramV, head PredSig, aggPreds map
 	if o.Compare && len(c.vars["num"]) > 0 && r.Intn(3) == 0 {
 		a := VarT(c.vars["num"][r.Intn(len(c.vars["num"]))])
 		body = append(body, LitV{K: "atom", Pred: ":le", Args: []TermV{a, ConstT(Num(int64(r.Intn(6))))}})
+	}
+	if len(c.vars["list"]) > 0 && r.Intn(2) == 0 {
+		// a variable that only a built-in predicate with an output position binds (one solution per list element, or
+		// the head of the list); it can become a group key or a reducer argument
+		lv := c.vars["list"][r.Intn(len(c.vars["list"]))]
+		e := c.fresh("num")
+		if r.Intn(3) > 0 {
+			body = append(body, LitV{K: "atom", Pred: ":list:member", Args: []TermV{VarT(e), VarT(lv)}})
+		} else {
+			t := c.fresh("list")
+			body = append(body, LitV{K: "atom", Pred: ":match_cons", Args: []TermV{VarT(lv), VarT(e), VarT(t)}})
+		}
+		c.vars["num"] = append([]string{e, e}, c.vars["num"]...)
 	}
 	if len(c.vars["num"]) > 0 && r.Intn(3) == 0 {
 		// a variable that only an equality defines, in either orientation; it can become a group key or a reducer argument
